@@ -39,7 +39,12 @@ CHECKS = {
         text="Every spec tree up to depth 2 from 66 leaves, 13-18 unary wrappers and 9-10 n-ary/context forms over an 8-leaf basis, plus 419 depth-3 "
              "interaction-family trees, is instantiated from the real combinators; every value of its derived domain (<=24) is written and read back in both "
              "byte orders, pod and non-pod, with none / 00 / FF01 trailing bytes. Required: value equality, reader position == bytes written, trailing bytes "
-             "unread, agreement with the reference encoding, a non-raising calc_size() matching every encoding length, out-of-domain probes raise.",
+             "unread, agreement with the reference encoding, a non-raising calc_size() matching every encoding length, out-of-domain probes raise. The family trees "
+             "(1,476+) include context-dependent entries (ContextSwitch / ContextAdapter reading ctx._, ctx._._ and ctx._root, by item and by attribute) inside "
+             "length-prefixed, fixed-count and greedy collections; IntFlag leaves include a flag class with a zero member, an alias, multi-bit combinations and a "
+             "member-less mask swept over the complete 8-bit wire domain (signed, unsigned, rich, pod); PackedQuat is instantiated over every child kind the "
+             "library uses with W below, at (+-0.0) and above zero; evidence lists per rest-of-window spec every position in which it is exercised "
+             "(window_consuming_positions); constructor options are swept one at a time plus interacting pairs.",
         note="Domains are boundary alphabets and covering rows, not full cross products; n-ary and depth-2 compositions use an 8-/4-leaf basis; ambiguous values "
              "(trailing NUL in Str, embedded terminators, empty payloads under IfPresent/greedy/empty_is_none, duplicate dict keys) are out of domain; "
              "NumPy/LLSD/Forward/FHReader specs are not in the grammar; quantiser saturation is C10's. Trusted: hmc/specgen.py reference encoder and norm()."),
